@@ -405,7 +405,12 @@ def rd_md_dataframe(w, ev, slot, t, ref):
                % (sorted(map(str, df.columns)), sorted(cols)))
     for c, want in cols.items():
         got = [plain(x) for x in df[c].tolist()]
-        if not all(g == x or (g != g and x != x) for g, x in zip(got, want)):
+        def same(g, x):
+            # a missing value (None) may be shown by pandas as None or NaN
+            if x is None:
+                return g is None or g != g
+            return g == x or (g != g and x != x)
+        if not all(same(g, x) for g, x in zip(got, want)):
             w.fail('export.md_dataframe', 'column %r = %r, expected %r'
                    % (c, got, want))
     return 'md_dataframe'
